@@ -2,6 +2,7 @@ package main
 
 import (
 	"fmt"
+	"math/big"
 	"regexp"
 	"os"
 	"path/filepath"
@@ -27,6 +28,10 @@ type parityQuery struct {
 	Kind   int // 0,1 header; 2 payload
 	From   int // first burst offset of this script (-1 for weight scripts)
 	PayloadLen int
+	// cross-path queries: x accepted through path i, x^e accepted through path j
+	Cross  bool
+	Ei, Ej []affBit
+	Rhs    []bool
 }
 
 // parityRows returns for each equation the sorted list of basis indices.
@@ -57,17 +62,24 @@ func xorExpr(vars []string) string {
 }
 
 // weightScript: exists e with A.e=0 and wlo <= weight(e) <= whi.
-func weightScript(rows [][]int, n, wlo, whi int) string {
+func weightScript(rows [][]int, n, wlo, whi int) string { return weightScriptRhs(rows, nil, n, wlo, whi) }
+
+// weightScriptRhs: exists e with A.e = rhs and wlo <= weight(e) <= whi (rhs nil = all zero).
+func weightScriptRhs(rows [][]int, rhs []bool, n, wlo, whi int) string {
 	var sb strings.Builder
 	for i := 0; i < n; i++ {
 		fmt.Fprintf(&sb, "(declare-const e%d Bool)\n", i)
 	}
-	for _, r := range rows {
+	for ri, r := range rows {
 		vs := make([]string, len(r))
 		for i, k := range r {
 			vs[i] = fmt.Sprintf("e%d", k)
 		}
-		fmt.Fprintf(&sb, "(assert (not %s))\n", xorExpr(vs))
+		if rhs != nil && rhs[ri] {
+			fmt.Fprintf(&sb, "(assert %s)\n", xorExpr(vs))
+		} else {
+			fmt.Fprintf(&sb, "(assert (not %s))\n", xorExpr(vs))
+		}
 	}
 	// weight as a bit-vector sum
 	w := 8
@@ -137,6 +149,11 @@ func burstScript(rows [][]int, order []int, blen int, from, to int) string {
 // per 32x31 system otherwise (measured: z3 11-14 s, z3-new 23 s, cvc5 > 60 s). The solver still decides each reduced
 // system; the unreduced form is kept for the smallest payload as a cross-check of the elimination.
 func burstScriptReduced(rows [][]int, order []int, blen int, from, to int) string {
+	return burstScriptReducedRhs(rows, nil, order, blen, from, to, false)
+}
+
+// burstScriptReducedRhs: as above for A.e = rhs; withModel adds (get-model) after each check-sat.
+func burstScriptReducedRhs(rows [][]int, rhs []bool, order []int, blen int, from, to int, withModel bool) string {
 	n := len(order)
 	if to > n {
 		to = n
@@ -152,8 +169,11 @@ func burstScriptReduced(rows [][]int, order []int, blen int, from, to int) strin
 	for s := from; s < to; s++ {
 		// build augmented matrix: bit i (1..blen-1) = coefficient of b_i, bit 0 = right-hand side
 		var m []uint64
-		for _, r := range rows {
+		for ri, r := range rows {
 			var row uint64
+			if rhs != nil && rhs[ri] {
+				row ^= 1
+			}
 			for _, k := range r {
 				p := pos[k]
 				if p == s {
@@ -198,17 +218,21 @@ func burstScriptReduced(rows [][]int, order []int, blen int, from, to int) strin
 					bits = append(bits, fmt.Sprintf("b%d", i))
 				}
 			}
-			rhs := "false"
+			rv := "false"
 			if row&1 == 1 {
-				rhs = "true"
+				rv = "true"
 			}
 			if len(bits) == 0 {
-				fmt.Fprintf(&sb, "(assert (= false %s))\n", rhs)
+				fmt.Fprintf(&sb, "(assert (= false %s))\n", rv)
 			} else {
-				fmt.Fprintf(&sb, "(assert (= %s %s))\n", xorExpr(bits), rhs)
+				fmt.Fprintf(&sb, "(assert (= %s %s))\n", xorExpr(bits), rv)
 			}
 		}
-		sb.WriteString("(check-sat)\n(pop 1)\n")
+		if withModel {
+			sb.WriteString("(check-sat)\n(get-model)\n(pop 1)\n")
+		} else {
+			sb.WriteString("(check-sat)\n(pop 1)\n")
+		}
 	}
 	return sb.String()
 }
@@ -285,7 +309,9 @@ func runScriptModel(bin []string, script string, timeout time.Duration) (string,
 // c07Post extracts the parity-check systems from the exported acceptance conditions and discharges the queries.
 func c07Post(c *CheckCtx) error {
 	type sys struct {
-		name  string
+		name    string
+		harness string
+		eqs     []affBit
 		rows  [][]int
 		n     int
 		order []int
@@ -293,8 +319,14 @@ func c07Post(c *CheckCtx) error {
 	}
 	var systems []sys
 	for _, r := range c.Results {
+		// one variable numbering per harness, so that the systems of its accepting paths can be combined
+		a := newAffCtx()
+		type pend struct {
+			name string
+			eqs  []affBit
+		}
+		var ps []pend
 		for _, ex := range r.Exports {
-			a := newAffCtx()
 			var eqs []affBit
 			dropped := 0
 			for _, lit := range ex.PC {
@@ -306,19 +338,26 @@ func c07Post(c *CheckCtx) error {
 				}
 				eqs = append(eqs, e...)
 			}
-			n := len(a.names)
 			if len(eqs) == 0 {
 				c.Problems = append(c.Problems, fmt.Sprintf("%s/%s: acceptance condition is not affine (%s)", r.Name, ex.Name, a.failWhy))
 				continue
 			}
-			// wire order: by byte index then bit (names look like x[3]!8:5)
-			idx := make([]int, n)
-			for i := range idx {
-				idx[i] = i
+			ps = append(ps, pend{r.Name + "/" + ex.Name, eqs})
+			c.Samples = append(c.Samples, map[string]interface{}{"acceptance_system": r.Name + "/" + ex.Name, "parity_equations": len(eqs), "non_affine_literals_dropped": dropped})
+		}
+		n := len(a.names)
+		// wire order: by byte index then bit (names look like x[3]!8:5)
+		idx := make([]int, n)
+		for i := range idx {
+			idx[i] = i
+		}
+		sort.Slice(idx, func(i, j int) bool { return wireKey(a.names[idx[i]]) < wireKey(a.names[idx[j]]) })
+		for k, p := range ps {
+			name := p.name
+			if len(ps) > 1 {
+				name = fmt.Sprintf("%s#%d", p.name, k)
 			}
-			sort.Slice(idx, func(i, j int) bool { return wireKey(a.names[idx[i]]) < wireKey(a.names[idx[j]]) })
-			systems = append(systems, sys{name: r.Name + "/" + ex.Name, rows: parityRows(eqs, n), n: n, order: idx, names: a.names})
-			c.Samples = append(c.Samples, map[string]interface{}{"acceptance_system": r.Name + "/" + ex.Name, "input_bits": n, "parity_equations": len(eqs), "non_affine_literals_dropped": dropped})
+			systems = append(systems, sys{name: name, harness: r.Name, eqs: p.eqs, rows: parityRows(p.eqs, n), n: n, order: idx, names: a.names})
 		}
 	}
 	if len(systems) == 0 {
@@ -355,6 +394,48 @@ func c07Post(c *CheckCtx) error {
 			}
 		}
 	}
+	// acceptance through different paths: the accepted set is a union of affine spaces, so x and x^e may be accepted
+	// by two different paths; eliminating x from  A_i.x = c_i  and  A_j.(x^e) = c_j  leaves an affine system R.e = d
+	for i := range systems {
+		for j := range systems {
+			if i == j || systems[i].harness != systems[j].harness {
+				continue
+			}
+			si, sj := systems[i], systems[j]
+			rows, rhs, consistent := crossResidual(si.eqs, sj.eqs, si.n)
+			if !consistent {
+				c.Oblig = append(c.Oblig, Obligation{Name: fmt.Sprintf("%s -> %s: no input is accepted through both path conditions whatever the error (inconsistent after eliminating the input)", si.name, sj.name), Result: "unsat", Solver: "GF(2) elimination"})
+				continue
+			}
+			kind, pl := 10, 0
+			switch {
+			case strings.Contains(si.name, "Header") && si.n > 48:
+				kind = 11
+			case strings.Contains(si.name, "Header"):
+				kind = 10
+			default:
+				kind, pl = 12, si.n/8-4
+			}
+			base := parityQuery{Timeout: to, Names: si.names, Order: si.order, Rows: rows, Rhs: rhs, Kind: kind, PayloadLen: pl, Cross: true, Ei: si.eqs, Ej: sj.eqs}
+			if kind != 12 {
+				q := base
+				q.Name = fmt.Sprintf("%s -> %s: no input accepted through the first path is accepted through the second after 1..7 bit flips", si.name, sj.name)
+				q.Script, q.From = weightScriptRhs(rows, rhs, si.n, 1, 7), -1
+				qs = append(qs, q)
+			} else {
+				q := base
+				q.Name = fmt.Sprintf("%s -> %s: no payload accepted through the first path is accepted through the second after 1 or 2 bit flips", si.name, sj.name)
+				q.Script, q.From = weightScriptRhs(rows, rhs, si.n, 1, 2), -1
+				qs = append(qs, q)
+				for from := 0; from < si.n; from += 64 {
+					q := base
+					q.Name = fmt.Sprintf("%s -> %s: nor after a burst of at most 32 bits starting at wire bit %d..%d", si.name, sj.name, from, from+63)
+					q.Script, q.From = burstScriptReducedRhs(rows, rhs, si.order, 32, from, from+64, false), from
+					qs = append(qs, q)
+				}
+			}
+		}
+	}
 	results := runParityQueries(qs, c.Workers)
 	os.MkdirAll(filepath.Join(c.Verif, "replays"), 0o755)
 	for qi, r := range results {
@@ -364,7 +445,7 @@ func c07Post(c *CheckCtx) error {
 		case "sat":
 			w := parityWitness(qs[qi], r.Model)
 			msg := "corrupted header is rejected"
-			if qs[qi].Kind == 2 {
+			if qs[qi].Kind == 2 || qs[qi].Kind == 12 {
 				msg = "corrupted payload is rejected"
 			}
 			c.Viol = append(c.Viol, Violation{Key: "segment.VerifReplayC07|" + r.Name, Harness: "segment.VerifReplayC07", Msg: msg, Witness: w, Kind: "assert"})
@@ -373,6 +454,130 @@ func c07Post(c *CheckCtx) error {
 		}
 	}
 	return nil
+}
+
+
+// crossResidual eliminates the input bits x from  A_i.x = c_i  and  A_j.(x^e) = c_j  (Gauss over GF(2)); the rows
+// that remain constrain e alone: R.e = d. consistent=false: the two systems exclude each other for every e.
+func crossResidual(ei, ej []affBit, n int) (rows [][]int, rhs []bool, consistent bool) {
+	var m []*big.Int
+	for _, e := range ei {
+		r := new(big.Int).Set(e.vars)
+		if e.c {
+			r.SetBit(r, 2*n, 1)
+		}
+		m = append(m, r)
+	}
+	for _, e := range ej {
+		r := new(big.Int).Set(e.vars)
+		r.Or(r, new(big.Int).Lsh(e.vars, uint(n)))
+		if e.c {
+			r.SetBit(r, 2*n, 1)
+		}
+		m = append(m, r)
+	}
+	rank := 0
+	for col := 0; col < n && rank < len(m); col++ {
+		piv := -1
+		for i := rank; i < len(m); i++ {
+			if m[i].Bit(col) == 1 {
+				piv = i
+				break
+			}
+		}
+		if piv < 0 {
+			continue
+		}
+		m[rank], m[piv] = m[piv], m[rank]
+		for i := rank + 1; i < len(m); i++ {
+			if m[i].Bit(col) == 1 {
+				m[i].Xor(m[i], m[rank])
+			}
+		}
+		rank++
+	}
+	for _, r := range m[rank:] {
+		var idx []int
+		for k := 0; k < n; k++ {
+			if r.Bit(n+k) == 1 {
+				idx = append(idx, k)
+			}
+		}
+		d := r.Bit(2*n) == 1
+		if len(idx) == 0 {
+			if d {
+				return nil, nil, false
+			}
+			continue
+		}
+		rows = append(rows, idx)
+		rhs = append(rhs, d)
+	}
+	return rows, rhs, true
+}
+
+// crossInput solves  A_i.x = c_i,  A_j.x = c_j ^ A_j.e  for x (free variables 0); ok=false if there is none.
+func crossInput(ei, ej []affBit, n int, e *big.Int) (*big.Int, bool) {
+	var m []*big.Int
+	for _, q := range ei {
+		r := new(big.Int).Set(q.vars)
+		if q.c {
+			r.SetBit(r, n, 1)
+		}
+		m = append(m, r)
+	}
+	for _, q := range ej {
+		r := new(big.Int).Set(q.vars)
+		par := uint(0)
+		t := new(big.Int).And(q.vars, e)
+		for _, w := range t.Bits() {
+			for ; w != 0; w &= w - 1 {
+				par ^= 1
+			}
+		}
+		c := q.c
+		if par == 1 {
+			c = !c
+		}
+		if c {
+			r.SetBit(r, n, 1)
+		}
+		m = append(m, r)
+	}
+	var pivCol []int
+	rank := 0
+	for col := 0; col < n && rank < len(m); col++ {
+		piv := -1
+		for i := rank; i < len(m); i++ {
+			if m[i].Bit(col) == 1 {
+				piv = i
+				break
+			}
+		}
+		if piv < 0 {
+			continue
+		}
+		m[rank], m[piv] = m[piv], m[rank]
+		for i := range m {
+			if i != rank && m[i].Bit(col) == 1 {
+				m[i].Xor(m[i], m[rank])
+			}
+		}
+		pivCol = append(pivCol, col)
+		rank++
+	}
+	for _, r := range m[rank:] {
+		if r.Bit(n) == 1 {
+			return nil, false
+		}
+	}
+	x := new(big.Int)
+	for i, col := range pivCol {
+		if m[i].Bit(n) == 1 {
+			x.SetBit(x, col, 1)
+		}
+	}
+	return x, true
 }
 
 func firstLines(s string, n int) string {
@@ -416,8 +621,13 @@ func parityWitness(q parityQuery, model string) map[string]string {
 		var i, n int
 		fmt.Sscanf(model, "query #%d of %d is sat", &i, &n)
 		s := q.From + i
-		script := burstScript(q.Rows, q.Order, 32, s, s+1)
-		script = strings.Replace(script, "(check-sat)\n(pop 1)", "(check-sat)\n(get-model)\n(pop 1)", 1)
+		var script string
+		if q.Cross {
+			script = burstScriptReducedRhs(q.Rows, q.Rhs, q.Order, 32, s, s+1, true)
+		} else {
+			script = burstScript(q.Rows, q.Order, 32, s, s+1)
+			script = strings.Replace(script, "(check-sat)\n(pop 1)", "(check-sat)\n(get-model)\n(pop 1)", 1)
+		}
 		_, _, out := runScriptModel([]string{"z3"}, script, 300*time.Second)
 		bits[s] = true
 		for _, m := range modelBoolRe.FindAllStringSubmatch(out, -1) {
@@ -439,6 +649,29 @@ func parityWitness(q parityQuery, model string) map[string]string {
 		}
 		if v != 0 {
 			w[fmt.Sprintf("e[%d]", b)] = fmt.Sprint(v)
+		}
+	}
+	if q.Cross {
+		// an input accepted through the first path such that the corrupted input is accepted through the second
+		e := new(big.Int)
+		for p, idx := range q.Order {
+			if bits[p] {
+				e.SetBit(e, idx, 1)
+			}
+		}
+		x, ok := crossInput(q.Ei, q.Ej, len(q.Order), e)
+		if !ok {
+			w["no_input"] = "1"
+			return w
+		}
+		for b := 0; b < nbytes; b++ {
+			v := 0
+			for k := 0; k < 8; k++ {
+				if x.Bit(q.Order[b*8+k]) == 1 {
+					v |= 1 << uint(k)
+				}
+			}
+			w[fmt.Sprintf("x[%d]", b)] = fmt.Sprint(v)
 		}
 	}
 	return w
